@@ -480,7 +480,10 @@ func (s *Store[H]) flushLoop(ctx context.Context) {
 				break
 			}
 
-			from, to := toFlush[0].Height(), toFlush[len(toFlush)-1].Height()
+			var from, to uint64
+			if len(toFlush) > 0 {
+				from, to = toFlush[0].Height(), toFlush[len(toFlush)-1].Height()
+			}
 			log.Errorw("writing header batch", "try", i+1, "from", from, "to", to, "err", err)
 			s.metrics.flush(ctx, time.Since(startTime), s.pending.Len(), true)
 
